@@ -38,6 +38,13 @@ KERNELS = [
          stop_before="if start >= end", returns=["start", "end", "step", "start >= end"],
          type="Int × Int × Int × Bool",
          note="K8: slice normalisation of RunLengthArray._get_slice up to its emptiness test: (start, end, step, is_empty)"),
+    dict(name="ht_hash", file="npstructures/hashtable.py", qual="HashTable._get_hash",
+         rowvars={"self._mod": "m"}, rowparams=[("m", INT)], params={"keys": ("k", INT)},
+         type="Int", note="K10: bucket of a key (Python's % : the result has the sign of the modulus)"),
+    dict(name="ht_mod", file="npstructures/hashtable.py", qual="HashTable._get_mod",
+         rowvars={"keys.size": "n"}, rowparams=[("n", INT)], params={}, ctor=[], calls={},
+         identity_calls=["self.dtype"],
+         type="Int", note="K10: default modulus for n keys"),
 ]
 
 
